@@ -18,7 +18,10 @@ def decode(string):
   return unsafe_decode(string)
 
 def validate_encoded(string):
-  if not re.match(r"^[!-)+-<>-~][!-~]*[+-](,[!-)+-<>-~][!-~]*[+-])*\Z", string):
+  # a comma is a printable character: NameOrient(,NameOrient)* denotes the same
+  # strings as a single NameOrient, and written with the repetition the
+  # expression backtracks exponentially on a long list with an invalid character
+  if not re.match(r"^[!-)+-<>-~][!-~]*[+-]\Z", string):
     raise gfapy.FormatError(
       "{} is not a valid list of GFA1 segment names ".format(repr(string))+
       "and orientations\n"+
